@@ -86,12 +86,12 @@ func CondAtoms(v ssa.Value, pol bool) []string {
 
 // edgeFact reports whether control entering block c implies the condition of
 // d's terminating If with a definite polarity.
-func edgeFact(d, c *ssa.BasicBlock) (cond *ssa.If, pol bool, ok bool) {
-	if len(d.Instrs) == 0 {
+func edgeFact(fi *FnInfo, d, c *ssa.BasicBlock) (cond *ssa.If, pol bool, ok bool) {
+	if len(d.Instrs) == 0 || fi.Dies[d] {
 		return
 	}
 	ifi, isIf := d.Instrs[len(d.Instrs)-1].(*ssa.If)
-	if !isIf || len(c.Preds) != 1 || c.Preds[0] != d {
+	if !isIf || len(fi.Preds[c]) != 1 || fi.Preds[c][0] != d {
 		return
 	}
 	if d.Succs[0] == d.Succs[1] {
@@ -109,12 +109,13 @@ func edgeFact(d, c *ssa.BasicBlock) (cond *ssa.If, pol bool, ok bool) {
 // FactsAtBlock returns every fact that holds on entry to block b.
 func FactsAtBlock(b *ssa.BasicBlock) []Fact {
 	var out []Fact
-	for c := b; c != nil; c = c.Idom() {
-		d := c.Idom()
+	fi := Info(b.Parent())
+	for c := b; c != nil; c = fi.Idom(c) {
+		d := fi.Idom(c)
 		if d == nil {
 			break
 		}
-		if ifi, pol, ok := edgeFact(d, c); ok {
+		if ifi, pol, ok := edgeFact(fi, d, c); ok {
 			for _, a := range CondAtoms(ifi.Cond, pol) {
 				out = append(out, Fact{a, ifi})
 			}
@@ -164,13 +165,21 @@ func Match(pat, s string) bool {
 
 // HasFact reports whether some fact matches the glob pattern.
 func HasFact(fs []Fact, pat string) bool {
-	for _, f := range fs {
-		if Match(pat, f.Atom) {
-			return true
+	for _, alt := range strings.Split(pat, " || ") {
+		for _, f := range fs {
+			if Match(alt, f.Atom) {
+				return true
+			}
 		}
 	}
 	return false
 }
+
+// EqPat is the pattern for "a == b" in either operand order.
+func EqPat(a, b string) string { return "eq(" + a + "," + b + ") || eq(" + b + "," + a + ")" }
+
+// NePat is the pattern for "a != b" in either operand order.
+func NePat(a, b string) string { return "!eq(" + a + "," + b + ") || !eq(" + b + "," + a + ")" }
 
 // FindFact returns the first fact matching the pattern.
 func FindFact(fs []Fact, pat string) *Fact {
@@ -198,5 +207,5 @@ func Precedes(a, b ssa.Instruction) bool {
 	if a.Block() == b.Block() {
 		return InstrIndex(a) < InstrIndex(b)
 	}
-	return a.Block().Dominates(b.Block())
+	return Info(a.Parent()).Dominates(a.Block(), b.Block())
 }
